@@ -32,10 +32,10 @@ func HNamespace(kind, a, b int) {
 }
 
 // FileOps on one file from two goroutines.
-var FileOps = []string{"Read", "Write", "ReadAt", "WriteAt", "Seek", "Stat", "Truncate", "Close", "Sync"}
+var FileOps = []string{"Read", "Write", "ReadAt", "WriteAt", "Seek", "Stat", "Truncate", "Close", "Sync", "SeekEnd", "SeekCur"}
 
 // NumFileOps is len(FileOps).
-const NumFileOps = 9
+const NumFileOps = 11
 
 func fileOp(f avfs.File, i int) {
 	b := make([]byte, 1)
@@ -50,6 +50,10 @@ func fileOp(f avfs.File, i int) {
 		_, _ = f.WriteAt([]byte("w"), 1)
 	case "Seek":
 		_, _ = f.Seek(1, 0)
+	case "SeekEnd":
+		_, _ = f.Seek(0, 2)
+	case "SeekCur":
+		_, _ = f.Seek(1, 1)
 	case "Stat":
 		_, _ = f.Stat()
 	case "Truncate":
